@@ -23,7 +23,14 @@ def _init_worker():
 def _call(args):
     fn, item = args
     try:
-        return fn(item)
+        res = fn(item)
+        # what is needed to run exactly this case again (./check replay)
+        for v in res.get("violations", []):
+            v.setdefault("payload", {})
+            v["payload"].setdefault("worker", fn.__name__)
+            if isinstance(item, tuple) and item and isinstance(item[0], int):
+                v["payload"].setdefault("worker_seed", item[0])
+        return res
     except Exception:
         return {"error": traceback.format_exc()}
 
